@@ -8,9 +8,11 @@
 (*     prefix node from the parts that follow it, DuplicateRule,           *)
 (*     IncompatibleRules;                                                  *)
 (*   - the is_key_like / is_index_like / is_value_like predicates and      *)
-(*     flatten.                                                            *)
+(*     flatten;                                                            *)
+(*   - the Data container view and the algebra of filter results           *)
+(*     (DataApi.tla), truth tables and failure reasons (Reasons.tla).      *)
 (***************************************************************************)
-EXTENDS Unparse, Equality, Reasons
+EXTENDS Unparse, Equality, Reasons, DataApi
 
 \* p / q  (DataPath.__truediv__): parts concatenated; a non-empty result is never concrete, modifiers are dropped
 ConcatPath(p, q) == PathT(p.parts \o q.parts, p.parts \o q.parts = <<>>, "none", "none")
